@@ -406,18 +406,14 @@ func (v *LogScopeVariables) Get(s context.Scope, name string) (value.Value, erro
 func (v *LogScopeVariables) getFromRegex(name string) (value.Value, error) {
 	// HTTP response header matching
 	if match := responseHttpHeaderRegex.FindStringSubmatch(name); match != nil {
-		return &value.String{
-			Value: v.ctx.Response.Header.Get(match[1]),
-		}, nil
+		return getResponseHeaderValue(v.ctx.Response, match[1]), nil
 	}
 	if match := backendRequestHttpHeaderRegex.FindStringSubmatch(name); match != nil {
 		// Backend request is not made when the response is served from cache or generated locally
 		if v.ctx.BackendRequest == nil {
 			return &value.String{IsNotSet: true}, nil
 		}
-		return &value.String{
-			Value: v.ctx.BackendRequest.Header.Get(match[1]),
-		}, nil
+		return getRequestHeaderValue(v.ctx.BackendRequest, match[1]), nil
 	}
 	return v.base.getFromRegex(name)
 }
@@ -485,9 +481,7 @@ func (v *LogScopeVariables) Set(s context.Scope, name, operator string, val valu
 		if err := limitations.CheckProtectedHeader(match[1]); err != nil {
 			return errors.WithStack(err)
 		}
-		v.ctx.Response.Header.Set(match[1], val.String())
-		v.ctx.Response.Assign(match[1])
-		return nil
+		return assignResponseHeaderValue(v.ctx.Response, match[1], operator, val)
 	}
 
 	// If not found, pass to all scope value
@@ -519,7 +513,6 @@ func (v *LogScopeVariables) Unset(s context.Scope, name string) error {
 	if err := limitations.CheckProtectedHeader(match[1]); err != nil {
 		return errors.WithStack(err)
 	}
-	v.ctx.Response.Header.Del(match[1])
-	v.ctx.Response.Unassign(match[1])
+	unsetResponseHeaderValue(v.ctx.Response, match[1])
 	return nil
 }
